@@ -41,6 +41,10 @@ func init() {
 		Level:       "held on every executed case: complete enumeration of all slices up to length 5 (thorough 6) over 3 values x probes/predicates/key functions/index windows, ALL int8 triples for Clamp/InRange and all int8 for Abs, all 1-/2-/3-argument Range forms in [-10,10] (thorough [-14,14]) plus quarter-step floats, all map slices up to length 5 for the ByKey variants, plus seeded random inputs; checked against the definitions",
 		Technique:   "definitional checkers (differential against direct definitions) over complete small-scope enumeration + seeded random inputs; hangs/blow-ups by watchdog + isolated re-execution",
 		Assumptions: []string{"the definitions as coded in the checker are trusted", "not asserted: Mean of an empty slice, Clamp with min > max, unsigned/overflowing Range arguments, Range() with no argument", "FindMin/MaxByKey when some map lacks the key: an error or the extremum over the maps that have it"}})
+	reg(&propCfg{ID: "C14", Pkg: "./props/c14", Variants: simple(false),
+		Level:       "held on every executed case: complete enumeration of all maps with up to 3 (thorough 4) entries over 4 keys x 3 values x five value predicates x all key lists up to length 3, all collections of up to 3 (4) maps from a pool of 8, plus seeded random larger maps; each case executed 4 times on freshly built maps; results compared with references as sets/maps or by their defining property",
+		Technique:   "differential monitor + defining-property checkers, each case repeated to sample map iteration orders",
+		Assumptions: []string{"the references are trusted", "Go's per-range random iteration start is the source of iteration-order diversity (4 executions per case)", "Pick with an empty key list returns an error by documentation (only its empty result is checked)"}})
 	reg(&propCfg{ID: "C04", Pkg: "./props/c04", Variants: simple(false),
 		Technique:   "reference-model trace monitor (map model) over systematic small-scope sweep + seeded random sequences",
 		Assumptions: []string{"the map model and the generators are trusted", "single goroutine; concurrency is C01/C02"}})
